@@ -714,7 +714,7 @@ func (e *SpecEnv) intrinsic(name string, n *ast.CallExpr, targs []types.Type) Va
 		case *Term:
 			ptr = x
 		case *Agg:
-			if _, isSlice := e.info.Types[n.Args[0]].Type.Underlying().(*types.Slice); isSlice {
+			if _, isSlice := e.resolve(e.info.Types[n.Args[0]].Type).Underlying().(*types.Slice); isSlice {
 				ptr = x.F[0].(*Term)
 			}
 		}
@@ -745,7 +745,7 @@ func (e *SpecEnv) intrinsic(name string, n *ast.CallExpr, targs []types.Type) Va
 		pre := e.capPre[id.Name]
 		if pre == nil {
 			// the call did not run on this path (or its pre-state is ambiguous): unconstrained value
-			t := e.info.Types[n.Args[1]].Type
+			t := e.resolve(e.info.Types[n.Args[1]].Type)
 			return freshVal(t, "before."+id.Name, nil)
 		}
 		sub := *e
